@@ -158,3 +158,9 @@ func (p *PiecePicker) VerifEdges() (head, tail []bool) {
 	}
 	return
 }
+
+// VerifSetMaxWebseedPieces overrides the per-request web-seed range length that New derives from the
+// torrent size (len(pieces)/20, at least 1). A 3..4-piece torrent always gets 1, which makes every range a
+// single piece and the steal paths unreachable; setting it to k reproduces, at small scale, the range
+// geometry of a torrent with 20*k pieces.
+func (p *PiecePicker) VerifSetMaxWebseedPieces(k int) { p.maxWebseedPieces = k }
